@@ -8,11 +8,16 @@ from checks import codec_common as cc
 T = cc.TLS
 
 
+JSONX = os.path.join(os.path.dirname(os.path.abspath(__file__)), "schemas", "jsonx.tl")
+
+
 def corpus(c):
     s = [cc.Schema("cases", [T + "/cases.tl"], tl2="*", sanity=True),
-         cc.Schema("casesns", [T + "/cases.tl"], tl2="", sanity=True)]
+         cc.Schema("casesns", [T + "/cases.tl"], tl2="", sanity=True),
+         cc.Schema("jsonx", [JSONX], tl2="*", sanity=True)]
     if c.thorough:
-        s += [cc.Schema("gold", [T + "/goldmaster.tl", T + "/goldmaster2.tl", T + "/goldmaster3.tl"], tl2="*", sanity=True, split=True),
+        s += [cc.Schema("jsonxns", [JSONX], tl2="", sanity=True),
+              cc.Schema("gold", [T + "/goldmaster.tl", T + "/goldmaster2.tl", T + "/goldmaster3.tl"], tl2="*", sanity=True, split=True),
               cc.Schema("goldns", [T + "/goldmaster.tl", T + "/goldmaster2.tl", T + "/goldmaster3.tl"], tl2="", sanity=True)]
     return s
 
@@ -33,7 +38,9 @@ def setup(c):
     """Build everything the tie needs (model driver, in-repo harness, tl2gen, generated code per schema) concurrently.
     Returns (model argv, [prepared schemas])."""
     from concurrent.futures import ThreadPoolExecutor
-    with ThreadPoolExecutor(4) as ex:
+    import time
+    t0 = time.time()
+    with ThreadPoolExecutor(8) as ex:
         fm = ex.submit(c.model_exe)
         fh = ex.submit(c.harness, "hcodec")
         ft = ex.submit(cc.build_tl2gen, c)
@@ -41,6 +48,7 @@ def setup(c):
         scs = corpus(c)
         oks = list(ex.map(lambda sc: prepare(c, hcodec, tl2gen, sc), scs))
         model = fm.result()
+    c.extra["setup_s"] = round(time.time() - t0, 1)
     return model, [sc for sc, ok in zip(scs, oks) if ok]
 
 
@@ -307,6 +315,7 @@ class Rewriter:
     def __init__(self, sc, rng):
         self.I = sc.desc["instances"]
         self.rng = rng
+        self.skip_fields = set()   # (struct instance idx, field name): "bit set, struct field absent" makes WriteJSON panic (finding F3)
 
     def natarg(self, a, fvals, params):
         if a["k"] == "num":
@@ -547,9 +556,11 @@ class Rewriter:
             if depth < 6:
                 out += self.lift(self.walk(f["ty"], na, v, depth + 1), lambda nv, n=n: with_member(n, nv))
             if f.get("mask"):
-                ej = self.empty_json(f["ty"])
+                ej = self.empty_json(f["ty"], na)
                 if ej is not None and v == ej:
                     out.append(("masked_empty_dropped_bit_explicit", "same", without(n)))
+                if ej is None and v == ("o", []) and t["kind"] == "struct" and (s["idx"], f["name"]) not in self.skip_fields:
+                    out.append(("masked_empty_struct_dropped_bit_explicit", "same", without(n)))
                 if local:
                     out += self.drop_implied(s, fields, ms, pos, fvals, f["mask"]["v"])
         return out
@@ -815,3 +826,145 @@ def oracle_c06(c, cases, ans):
                     a, o = a.split(" j=")[0], o.split(" j=")[0]
                 if not a.startswith("ok ") or a != o:
                     c.oracle_fail(ln, "form '%s' and its explicit-mask spelling decode differently (%s vs %s)" % (rule, a[:80], o[:80]), ln)
+
+
+# ------------------------------------------------------------------ fixed lines: hand-built TL1 values, probes, witnesses
+def enc(sc, ty, v, bare=True, params=()):
+    """TL1 bytes of a Python value for descriptor type `ty`: int (bit pattern) for numbers, bytes for strings, bool,
+    dict name→value for structs (absent masked fields omitted; `#` fields must be given consistently), list for arrays
+    and dictionaries (of {"key","value"} dicts), (variant index, value) for unions, None / value for Maybe."""
+    I = sc.desc["instances"]
+    i = I[ty]
+    k = i["kind"]
+    u32 = lambda n: (n & 0xFFFFFFFF).to_bytes(4, "little")
+    if k == "prim":
+        p = i["prim"]
+        if p in ("uint32", "int32", "float32"):
+            return u32(v)
+        if p in ("uint64", "int64", "float64"):
+            return (v & (2 ** 64 - 1)).to_bytes(8, "little")
+        if p == "string":
+            n = len(v)
+            hdr = bytes([n]) if n <= 253 else b"\xfe" + n.to_bytes(3, "little")
+            bb = hdr + v
+            return bb + bytes(-len(bb) % 4)
+        if p == "bool":
+            return u32(i["trueTag"] if v else i["falseTag"])
+        if p == "byte":
+            return bytes([v])
+        return b""
+    if k == "struct":
+        out = b"" if bare else u32(i["tag"])
+        fs = i.get("fields") or []
+        if (i.get("isTypedef") or i.get("isUnwrap")) and not isinstance(v, dict):
+            v = {fs[0]["name"]: v}
+        vals = {}
+        for idx, f in enumerate(fs):
+            def na(a):
+                return a["v"] if a["k"] == "num" else (params[a["v"]] if a["k"] == "param" else vals.get(a["v"], 0))
+            if f.get("mask") and not (na(f["mask"]) >> f["bit"]) & 1:
+                continue
+            x = v.get(f["name"]) if isinstance(v, dict) else None
+            t = I[f["ty"]]
+            if t["kind"] == "prim" and t["prim"] == "uint32":
+                vals[idx] = x or 0
+            if x is None:
+                x = {} if t["kind"] == "struct" else ([] if t["kind"] in ("array", "dict") else (b"" if t.get("prim") == "string" else (None if t.get("isMaybe") else 0)))
+            out += enc(sc, f["ty"], x, f["bare"], [na(a) for a in f["natArgs"]])
+        return out
+    if k == "union":
+        if i.get("isMaybe"):
+            if v is None:
+                return u32(I[i["variants"][0]]["tag"])
+            return u32(I[i["variants"][1]]["tag"]) + enc(sc, i["variants"][1], v, True, params)
+        n, x = v
+        return u32(I[i["variants"][n]]["tag"]) + enc(sc, i["variants"][n], x, True, params)
+    if k in ("array", "dict"):
+        e = i["elem"]
+        out = b"" if (k == "array" and i.get("isTuple")) else u32(len(v))
+        for x in v:
+            out += enc(sc, e["ty"], x, e["bare"], [a["v"] if a["k"] == "num" else (params[a["v"]] if a["v"] < len(params) else 0) for a in e["natArgs"]])
+        return out
+    raise ValueError(k)
+
+
+def inst_by_name(sc, tlname):
+    for i in sc.desc["instances"]:
+        if i["tlname"] == tlname and i["kind"] in ("struct", "union") and i["natParams"] == 0:
+            return i
+    return None
+
+
+NEG0_32, NEG0_64 = 0x80000000, 1 << 63
+NAN32_P, NAN64_P = 0x7FC00001, 0x7FF8000000000002   # NaNs whose payload differs from the one "NaN" parses to
+
+
+def fixed_values(sc):
+    """[(tlname, python value, expectation, note)] — expectation "ok": must round-trip; "F…": witness of a known finding."""
+    out = []
+    if inst_by_name(sc, "cases.testDictString"):
+        out += [("cases.testDictString", {"dict": [{"key": b"\xff", "value": 1}]}, "F1", "dictionary key that is not valid UTF-8"),
+                ("cases.testDictString", {"dict": [{"key": b"a\nb", "value": 1}]}, "F2", "dictionary key that JSON escapes"),
+                ("cases.testDictString", {"dict": [{"key": b"q\"", "value": 1}]}, "F2", "dictionary key that JSON escapes"),
+                ("cases.testDictString", {"dict": [{"key": " ".encode(), "value": 1}]}, "F2", "dictionary key that JSON escapes"),
+                ("cases.testDictAny", {"dict": [{"key": NEG0_64, "value": 1}]}, "L2", "-0.0 in an unmasked float64 field"),
+                ("cases.testDictAny", {"dict": [{"key": NAN64_P, "value": 1}]}, "L3", "NaN with a payload"),
+                ("cases.testDictAny", {"dict": [{"key": 0x7FF8000000000001, "value": 1}, {"key": 0xFFF0000000000000, "value": 2}]}, "ok", "NaN/-Inf")]
+    if inst_by_name(sc, "jx.prims"):
+        P = lambda **kw: dict({"a": 0, "b": 0, "c": 0, "d": 0, "e": b"", "f": False, "g": 0}, **kw)
+        out += [("jx.prims", P(c=NEG0_32), "L2", "-0.0 in an unmasked float32 field"),
+                ("jx.prims", P(d=NEG0_64), "L2", "-0.0 in an unmasked float64 field"),
+                ("jx.prims", P(c=NAN32_P), "L3", "float32 NaN with a payload"),
+                ("jx.prims", P(d=NAN64_P), "L3", "float64 NaN with a payload"),
+                ("jx.prims", P(c=0xFFC00000), "L3", "float32 NaN with the sign bit"),
+                ("jx.prims", P(c=0x7FC00000, d=0x7FF8000000000001, e=b"\xff\xfe"), "ok", "canonical NaNs, non-UTF-8 string"),
+                ("jx.masked", {"m": 0b1100, "c": NEG0_32, "d": NEG0_64}, "ok", "-0.0 in masked fields is written explicitly"),
+                ("jx.masked", {"m": 0b100001100, "c": 1, "d": 1, "v": [NEG0_32, 0, NEG0_32]}, "ok", "-0.0 as vector element"),
+                ("jx.masked", {"m": 1 << 9, "mb": NEG0_64}, "L2", "-0.0 inside Maybe is omitted"),
+                ("jx.vectors", {"a": [NEG0_32], "b": [NEG0_64, 0], "c": [b"\xff", b""], "d": [True, False], "e": [NEG0_32, 0, 1], "f": [b"", b"\x80"], "g": [[], [0]]}, "ok", "-0.0 / bad UTF-8 as elements"),
+                ("jx.unionBox", {"u": (0, NEG0_32), "us": [], "mu": None}, "L2", "-0.0 in a typedef union variant is omitted"),
+                ("jx.unionBox", {"u": (3, {"x": NEG0_32, "y": b""}), "us": [], "mu": None}, "L2", "-0.0 in a named union variant field"),
+                ("jx.dicts", {"a": [{"key": b"k", "value": NEG0_32}], "b": [], "c": [], "d": [], "e": [], "f": [], "g": []}, "ok", "-0.0 as dictionary value"),
+                ("jx.dicts", {"a": [], "b": [{"key": b"\xc3", "value": b"x"}], "c": [], "d": [], "e": [], "f": [], "g": []}, "F1", "dictionary key that is not valid UTF-8"),
+                ("jx.dicts", {"a": [], "b": [{"key": b"\\", "value": b"x"}], "c": [], "d": [], "e": [], "f": [], "g": []}, "F2", "dictionary key that JSON escapes"),
+                ("jx.dicts", {"a": [], "b": [{"key": b"ok", "value": b"\xff\\\"\n"}], "c": [], "d": [], "e": [], "f": [], "g": []}, "ok", "dictionary value with escapes / bad UTF-8")]
+    return out
+
+
+def fixed_lines(sc):
+    res = []
+    for name, v, exp, note in fixed_values(sc):
+        i = inst_by_name(sc, name)
+        if i is None:
+            continue
+        bts = enc(sc, i["idx"], v, bare=False)
+        res.append(("codec.xj %s %d %s 1 %s" % (sc.sid, i["idx"], name, bts.hex()), exp, note))
+    return res
+
+
+def probe_lines(sc, items):
+    """`{}` read by every factory item: a type whose reader/writer pair panics on the empty object (finding F3) is reported
+    once here and left out of the random stream, where every value would hit the same defect."""
+    return ["codec.rj %s %d %s 0 7b7d" % (sc.sid, inst["idx"], inst["tlname"]) for inst, it in items if inst["kind"] == "struct"]
+
+
+def mask_probe_lines(sc, rw, items):
+    """`{"<mask>": bit}` with the masked struct-typed field left out, per factory struct and such field: documented as
+    "bit set, field absent = empty value". Where the field is a recursive pointer the reader leaves it nil and WriteJSON
+    panics (finding F3); those (struct, field) pairs are reported once and the rewrite is not applied to them elsewhere."""
+    I = sc.desc["instances"]
+    res = {}
+    for inst, it in items:
+        if inst["kind"] != "struct" or inst.get("isTypedef") or inst.get("isUnwrap"):
+            continue
+        fields = inst.get("fields") or []
+        for f in fields:
+            m = f.get("mask")
+            t = I[f["ty"]]
+            if not m or m["k"] != "field" or f.get("isBit") or f["natArgs"]:
+                continue
+            if t["kind"] != "struct" or t.get("isTypedef") or t.get("isUnwrap") or not t.get("fields"):
+                continue
+            tree = rw.set_bits(fields, ("o", []), f)
+            res[rj_line(sc, inst, 0, tree)] = (inst["idx"], f["name"])
+    return res
